@@ -1,5 +1,10 @@
-"""C05 — session machine check (see harness/sess_checks.py, Model/Session.lean, Props/C05.lean)."""
+"""C05 — session machine check (see harness/sess_checks.py, Model/Session.lean, Props/C05.lean), plus every close trigger on a transport
+with write flow control (harness/flow_scen.py: the trigger issued while the transport has writing paused / after it resumed / with
+resume_writing and connection_lost delivered around the close; C05 oracle `flow_scen.oracle_close`)."""
+import json
+
 import sess_checks
+import flow_scen
 
 DRIVER = 'drv_C05'
 LEAN_TARGETS = ['NasdaqModel.Props.C05', 'drv_C05']
@@ -7,7 +12,13 @@ LEAN_TARGETS = ['NasdaqModel.Props.C05', 'drv_C05']
 
 def run(ctx):
     sess_checks.run_family(ctx, 'C05')
+    flow_scen.run_flow(ctx, 'C05')
 
 
 def replay(ctx, path):
-    sess_checks.replay_family(ctx, 'C05', path)
+    r = json.load(open(path))
+    rep = r.get('replay') or (r.get('no_longer_checks') or [{}])[-1].get('case') or r
+    if isinstance(rep, dict) and 'flow_scenario' in rep:
+        flow_scen.replay_flow(ctx, 'C05', rep)
+    else:
+        sess_checks.replay_family(ctx, 'C05', path)
